@@ -19,8 +19,10 @@ func init() {
 }
 
 func runC18(p *core.Program, r *core.Report) {
-	r.Floor("T1", 3)
-	r.Floor("T2", 3)
+	// the generator has three template sites, two of them with the same field template: merging those two is a
+	// refactoring, so two distinct templates are what must remain visible
+	r.Floor("T1", 2)
+	r.Floor("T2", 2)
 	sites := templateRules(p, r, "devpkg/partialstruct")
 	c17R1(p, r, sites, 1)
 	r.Floor("T3", 1)
@@ -144,8 +146,10 @@ func c18R2(p *core.Program, r *core.Report, sites []templateSite) {
 	}
 	// every index of the Omit map in generate and its literals: key must be <field var>.Name()
 	n := 0
+	// generate, its literals, and the methods of the package it hands on as callbacks (`Skip: ps.omitted`)
+	part := reachableFrom(p, gen)
 	for _, f := range p.Funcs() {
-		if f.Root() != gen {
+		if f.Root() != gen && !(part[f] && f.Pkg == gen.Pkg) {
 			continue
 		}
 		info := f.Info()
@@ -215,9 +219,15 @@ func c18R2(p *core.Program, r *core.Report, sites []templateSite) {
 			if b.Name != "fieldType" || b.Ctor != "ID" {
 				continue
 			}
-			if c, ok := ast.Unparen(b.Expr).(*ast.CallExpr); ok && len(c.Args) == 1 {
-				if tc, ok := ast.Unparen(c.Args[0]).(*ast.CallExpr); ok && isMethodOfVar(s.F.Info(), tc, "Type") {
-					okType = true
+			alts := b.Alts
+			if len(alts) == 0 {
+				alts = []ast.Expr{b.Expr}
+			}
+			for _, alt := range alts {
+				if c, ok := ast.Unparen(alt).(*ast.CallExpr); ok && len(c.Args) == 1 {
+					if tc, ok := ast.Unparen(c.Args[0]).(*ast.CallExpr); ok && isMethodOfVar(s.F.Info(), tc, "Type") {
+						okType = true
+					}
 				}
 			}
 		}
